@@ -1605,3 +1605,23 @@ M("C05-add-worker-keeps-old-team-id", "C05", "R4.5", TM,
   """        if worker.team_id is None:
             worker.team_id = self.ID
         self.worker_list.append(worker)""")
+# ---------------------------------------------------------------------------------------- round 10
+M("C04-empty-fixed-id-list-means-anyone", "C04", "R4.2", TK,
+  """            if self.fixing_allocating_worker_id_list is not None:
+                if worker.ID not in self.fixing_allocating_worker_id_list:
+                    return False""",
+  """            if self.fixing_allocating_worker_id_list:
+                if worker.ID not in self.fixing_allocating_worker_id_list:
+                    return False""")
+M("C11-main-workplace-compared-by-identity", "C11", "R11.8", PR,
+  """EVERY:worker.main_workplace_id != target_workplace_id""",
+  """worker.main_workplace_id is not target_workplace_id""")
+M("C07-workplace-cost-not-reversed", "C07", "R8.4", WP,
+  """        self.cost_list = self.cost_list[::-1]
+        self.placed_component_id_record = self.placed_component_id_record[::-1]""",
+  """        self.placed_component_id_record = self.placed_component_id_record[::-1]""")
+M("C20-ss-gate-rejects-finished-predecessor", "C20", "R5.3", WF,
+  """                    if input_task.state == BaseTaskState.WORKING or input_task.state == BaseTaskState.FINISHED:
+                        ready = True""",
+  """                    if input_task.state == BaseTaskState.WORKING:
+                        ready = True""")
